@@ -22,6 +22,54 @@ CLAIMS = {
              "verify_same_mnt on the link' is checked by the tie (call order), not yet a separate theorem.",
         technique="Lean 4 proof (Safe logic over interaction trees, fun_induction on the walks) + transcript-replay correspondence",
         ref="DESIGN.md §8 C05"),
+    "C06": dict(
+        text="Lean theorems (Props/C06.lean, over the relational semantics Runs, i.e. for every environment incl. mounts racing with "
+             "every call): a descriptor returned by a procfs lookup (and by open_base) was verified *on the descriptor itself* — "
+             "statx(fd,\"\") answered with the handle's mount id (unknown iff the handle's is unknown) and the very last call of the "
+             "run is fstatfs(fd)=PROC_SUPER_MAGIC; fetch_mnt_id/verify_same_mnt inversion lemmas. Tie and oracle: in a private mount "
+             "namespace, subsets of 12 over-mounts (tmpfs, foreign file, other procfs object on files, directories, symlinks, "
+             "magic-links) x 7 handle kinds x both resolvers x {open, open_follow, readlink}: transcripts replayed through the model; "
+             "a visible over-mount must give EXDEV, the over-mounting object's identity must never be returned, private handles "
+             "must answer as on the pristine layout.",
+        note="MntIdTruthful (statx mount ids identify mounts) is the kernel fact the theorem rests on. open_follow on a non-magic "
+             "procfs symlink whose *target* is over-mounted returns the over-mount (finding F12, known, not repaired). Racing "
+             "mounts are covered by the theorem (any answers), not by the suite.",
+        technique="Lean 4 proof (history inversion over all environments) + over-mount layout differential in a mount namespace",
+        ref="DESIGN.md §8 C06"),
+    "C07": dict(
+        text="Lean theorems (Props/C07.lean): creation flags are refused by the resolver entry point and by open_follow as bare "
+             "error leaves; open forces O_NOFOLLOW; the emulated walk stops at '..' with EXDEV without looking it up; absolute "
+             "sub-paths give EXDEV before any call; the kernel resolver's mask is BENEATH|NO_MAGICLINKS|NO_XDEV; every call of the "
+             "emulated walk satisfies Disc false (no followed link, single components, bodies read from the opened descriptor). "
+             "Tie and oracle: sub-paths built from the live /proc listings x 10 flag sets x 3 APIs x {private, host} handle x both "
+             "resolvers, replayed through the model; resolver-vs-resolver outcome comparison.",
+        note="Magic-links whose body is not absolute, used as a component (fd/N/ of a pipe, ns/mnt/): ELOOP vs ENOENT (finding F13, "
+             "known). The 7x3 final-component table is covered by the tie, not yet by a table theorem.",
+        technique="Lean 4 proof (program equalities, Safe logic) + live-/proc differential between the two procfs resolvers",
+        ref="DESIGN.md §8 C07"),
+    "C08": dict(
+        text="Lean theorems (Props/C08.lean): the ENOENT retry of ProcfsHandle::open has recursion depth at most one for every "
+             "environment — openH (n+2) = openH 2 as programs, an unmasked handle never retries, hence at most one additional "
+             "handle per lookup and the model's fuel is never exhausted. Tie and oracle: {default, hidepid=1, hidepid=2, "
+             "hidepid=ptraceable, subset=pid, subset=pid+hidepid=2} mounted as /proc in fresh mount+pid namespaces x {root, uid "
+             "65534} x handle constructors x resolvers x {existing, missing, masked} paths: replayed through the model; missing "
+             "paths must report ENOENT, at most one handle may be created per call, the call count is bounded.",
+        note="Before the repair of F3 the depth theorem was false (the recursion was unbounded on an unprivileged hidepid host). "
+             "Peak descriptor use is measured through the recorded handle-creating calls, not through rlimits.",
+        technique="Lean 4 proof (program equality: fuel irrelevance) + privilege x /proc-option matrix in namespaces",
+        ref="DESIGN.md §8 C08"),
+    "C09": dict(
+        text="Lean theorems (Props/C09.lean): proc_subpath is total on every descriptor number >= 0 (0 included) and injective "
+             "(decimal rendering round-trips); reopen with creation flags is a bare error leaf; otherwise reopen is exactly "
+             "fstat -> ELOOP for a symlink -> open_follow(thread-self, fd/<n>, flags without O_NOFOLLOW) on libpathrs' own procfs "
+             "handle; for every environment a symlink answer ends the run with ELOOP and no further call; O_NOFOLLOW is stripped "
+             "and no other bit changes. Tie and oracle: handles to every inode type x forced descriptor numbers 0..1023 x "
+             "rename/replace/unlink histories x flag sets: replayed; (st_dev, st_ino), access mode, status flags and FD_CLOEXEC of "
+             "the result vs the handle.",
+        note="That thread-self/fd/<n> leads to the inode of descriptor n is the kernel's magic-link contract (MagicLinkSameInode), "
+             "exercised by the tie. Over-mounts on /proc: corollary of C06 (the link is verified with verify_same_mnt).",
+        technique="Lean 4 proof (total/injective function, program shape, run inversion) + descriptor-number x history differential",
+        ref="DESIGN.md §8 C09"),
     "C15": dict(
         text="Lean theorems (Props/C15.lean): the decision the emulated resolver evaluates equals the kernel's may_follow_link "
              "(transcribed from fs/namei.c as early returns) for every sysctl value, caller uid, link owner, directory mode and "
